@@ -77,6 +77,33 @@ def _history(item):
     return recs
 
 
+def _file_context(code):
+    """the conversion where it is used: the code is written into a .p8 file (its __lua__ section is the Unicode text) and
+    read back from it"""
+    from .. import cartio
+    rec = {'inp': list(code), 'uni': [-1], 'utf8ok': False, 'back': [-1]}
+    try:
+        data = cartio.write_p8(cartio.make_game(cartio.memory((0, 0), {}), code, None, 16))
+        rec['uni'] = cartio.lua_section_points(data)
+        rec['utf8ok'] = rec['uni'] != [-1]
+        rec['back'] = list(cartio.game_code(cartio.read_p8(data)))
+    except Exception:
+        pass
+    return rec
+
+
+def file_sources():
+    out = []
+    for b in range(1, 256):
+        if b in (10, 13):
+            continue
+        out.append(b'-- ' + bytes([b]) + b' ' + bytes([b, b]) + b'\n' + (b'x="' + bytes([b]) + b'a"\n' if b not in (34, 92) else b''))
+    # CR in every position relative to a line end; CR LF inside a long string and a comment; tabs; a line of glyphs only
+    out += [b'x=1\r\ny=2\r\n', b'-- a\r\n-- b\r\n', b's=[[a\r\nb\r\n]]\r\nz=1\n', b'x=1 \r\n', b'--[[c\r\nd]]\n', b'\t\tx=1\t\n',
+            bytes(range(128, 256)) + b'=1\n', b'--' + bytes(range(16, 32)) + b'\x7f\n', b'x=1 -- \r\r\n']
+    return out
+
+
 def run(ctx):
     rnd = random.Random(ctx.seed)
     ctx.rule = ('TLC on the extracted table: all 65280 ordered pairs of entries (injective, prefix-free), all 65536 byte pairs through Encode/Decode; '
@@ -117,6 +144,10 @@ def run(ctx):
         inputs.append(bytes([b]) * 70)
         inputs.append(bytes([b, 65]) * 40 + b'\r\n')
     recs = core.parmap(convert, inputs)
+    frecs = core.parmap(_file_context, file_sources())
+    ctx.notes['conversions_through_p8_files'] = len(frecs)
+    inputs = inputs + [bytes(r['inp']) for r in frecs]
+    recs = recs + frecs
     hist = core.parmap(_history, [(tab, ctx.seed)], procs=1)[0]
     ctx.notes['history_conversions_after_foreign_text'] = len(hist)
     inputs = inputs + [bytes(r['inp']) for r in hist]
